@@ -118,20 +118,110 @@ def mutations_of_line(line):
             yield op, new
 
 
-def gen(root):
+ERRKINDS = ["InsufficientSize", "BadAlign", "InvalidEnumTag", "InvalidData", "Other"]
+
+
+def mutations2_of_line(line):
+    """second operator set (campaign 2): type-level constants, ranges, error kinds, dropped `?`/offset, accessor swaps"""
+    if SKIP_LINE.match(line) or not line.strip():
+        return
+    out = []
+    typey = bool(TYPEY.search(line))
+
+    def sub_each(pattern, repl, op):
+        for m in re.finditer(pattern, line):
+            new = line[:m.start()] + (repl(m) if callable(repl) else repl) + line[m.end():]
+            if new != line:
+                out.append((op, new))
+
+    # associated constants of type parameters, also on `const` lines (where layout constants are defined)
+    sub_each(r"\b([A-Z]\w*|Self|<[^<>]+>)::SIZE\b", lambda m: m.group(1) + "::ALIGN", "assoc:SIZE->ALIGN")
+    sub_each(r"\b([A-Z]\w*|Self|<[^<>]+>)::ALIGN\b", lambda m: m.group(1) + "::SIZE", "assoc:ALIGN->SIZE")
+    sub_each(r"\b([A-Z]\w*|Self|<[^<>]+>)::MIN_SIZE\b", lambda m: m.group(1) + "::SIZE", "assoc:MIN_SIZE->SIZE") if "Sized" not in line else None
+    sub_each(r"\bT::ALIGN\b", "L::ALIGN", "assoc:T->L")
+    sub_each(r"\bL::ALIGN\b", "T::ALIGN", "assoc:L->T")
+    sub_each(r"\bSelf::ALIGN\b", "T::ALIGN", "assoc:Self->T") if "T::" in line or "<T" in line else None
+    sub_each(r"\bDATA_OFFSET\b", "OFFSET_SIZE", "const:DATA_OFFSET->OFFSET_SIZE") if "OFFSET_SIZE" in line else None
+    sub_each(r"\bLAST_FIELD_OFFSET\b", "MIN_SIZE", "const:LAST_FIELD_OFFSET->MIN_SIZE")
+    sub_each(r"\bDATA_OFFSET\b", "MIN_SIZE", "const:DATA_OFFSET->MIN_SIZE") if "const " not in line else None
+    # ranges
+    if not typey:
+        sub_each(r"(?<=[\w\)\]])\.\.(?=[\w\(])", "..=", "range:..->..=")
+        sub_each(r"\.\.=", "..", "range:..=->..")
+    # error kinds
+    for a in ERRKINDS:
+        for b in ERRKINDS:
+            if a != b and (a, b) in [("InsufficientSize", "BadAlign"), ("BadAlign", "InsufficientSize"), ("InsufficientSize", "InvalidData"),
+                                     ("InvalidEnumTag", "InvalidData"), ("InvalidData", "InvalidEnumTag"), ("InvalidData", "InsufficientSize"),
+                                     ("InvalidEnumTag", "InsufficientSize")]:
+                sub_each(r"\bErrorKind::" + a + r"\b", "ErrorKind::" + b, f"kind:{a}->{b}")
+    # error position handling
+    sub_each(r"\.map_err\(\|e\| e\.offset\([^()]*(\([^()]*\)[^()]*)*\)\)", "", "del:offset")
+    sub_each(r"\.offset\(([^()]*(\([^()]*\)[^()]*)*)\)", ".offset(0)", "offset->0")
+    sub_each(r"\bpos: ([a-z_][\w\.\(\)]*)", "pos: 0", "pos->0")
+    # accessor swaps
+    for a, b in [("len()", "capacity()"), ("capacity()", "len()"), ("occupied_len()", "vacant_len()"), ("vacant_len()", "occupied_len()"),
+                 ("window.start", "window.end"), ("window.end", "window.start"), ("remaining()", "capacity()"), ("is_full()", "is_empty()"),
+                 ("first()", "last()"), ("split_at_mut(", "split_at_mut(1 + "), ("saturating_sub(", "wrapping_sub("), ("checked_sub(", "checked_add("),
+                 ("checked_add(", "checked_sub("), ("checked_mul(", "checked_add("), ("to_usize()", "to_usize().map(|x| x + 1)"),
+                 ("from_usize(", "from_usize(1 + "), ("Poll::Pending", "Poll::Ready(Ok(0))"), ("as_bytes()", "as_bytes().split_at(0).1"),
+                 ("max_value()", "max_value() - L::one()"), ("L::zero()", "L::one()"), ("L::one()", "L::zero()"),
+                 (".skip(", ".skip(1 + "), (".take(", ".take(1 + "), ("copy_within(", "copy_within(0 + "),
+                 ("u8::MAX", "u8::MAX - 1"), ("usize::MAX", "usize::MAX - 1")]:
+            sub_each(re.escape(a), b, f"swap:{a}->{b}")
+    # `?` dropped (error ignored) on unit-valued calls; early returns removed
+    m = re.match(r"^(\s*)([a-z_][\w\.:<>]*\(.*\))\?;\s*$", line)
+    if m and not line.strip().startswith(("let ", "return")):
+        out.append(("drop:?", f"{m.group(1)}let _ = {m.group(2)};\n"))
+    m = re.match(r"^(\s*)return (Err|Ok|Poll::Ready)\(.*\);\s*$", line)
+    if m:
+        out.append(("del:return", m.group(1) + "// (deleted)\n"))
+    # off-by-one on the right-hand side of comparisons with a non-literal
+    if not typey:
+        sub_each(r"( (?:<|<=|>|>=|==) )([a-zA-Z_][\w:\.]*(?:\(\))?)(?=[ \)\{;,])", lambda m: m.group(1) + "(" + m.group(2) + " + 1)", "obo:rhs+1")
+    seen = set()
+    for op, new in out:
+        if new not in seen:
+            seen.add(new)
+            yield op, new
+
+
+def swaps_of(lines):
+    """adjacent-statement swaps: two consecutive single-line statements with equal indentation"""
+    st = re.compile(r"^(\s*)(?!let |//|return|break|continue|\}|#|use |pub use |pub type |type |mod |pub mod |const |pub const |assert|debug_assert)[^\s].*;\s*$")
+    for i in range(len(lines) - 1):
+        a, b = st.match(lines[i]), st.match(lines[i + 1])
+        if a and b and a.group(1) == b.group(1) and len(a.group(1)) >= 8 and lines[i].strip() != lines[i + 1].strip():
+            yield i
+
+
+def gen(root, opset=1):
     os.makedirs(root, exist_ok=True)
     muts = []
+    first = set()
+    if opset == 2:
+        for f in FILES:
+            for i, line in enumerate(open(os.path.join(REPO, f)).read().splitlines(keepends=True)):
+                for op, new in mutations_of_line(line):
+                    first.add((f, i + 1, new.rstrip("\n")))
     for f in FILES:
         p = os.path.join(REPO, f)
         lines = open(p).read().splitlines(keepends=True)
         in_test = False
         for i, line in enumerate(lines):
-            if "#[cfg(test)]" in line:
+            if re.search(r"#\[cfg\((all\()?test\b", line):
                 in_test = True
             if in_test:
                 break
-            for op, new in mutations_of_line(line):
+            for op, new in (mutations_of_line(line) if opset == 1 else mutations2_of_line(line)):
+                if (f, i + 1, new.rstrip("\n")) in first:
+                    continue
                 muts.append({"id": len(muts), "file": f, "line": i + 1, "op": op, "old": line.rstrip("\n"), "new": new.rstrip("\n")})
+        if opset == 2:
+            n_code = next((k for k, l in enumerate(lines) if re.search(r"#\[cfg\((all\()?test\b", l)), len(lines))
+            for i in swaps_of(lines[:n_code]):
+                muts.append({"id": len(muts), "file": f, "line": i + 1, "op": "swap:stmts", "old": lines[i].rstrip("\n"),
+                             "new": lines[i + 1].rstrip("\n"), "old2": lines[i + 1].rstrip("\n"), "new2": lines[i].rstrip("\n")})
     json.dump(muts, open(os.path.join(root, "mutants.json"), "w"), indent=0)
     by = {}
     for m in muts:
@@ -175,6 +265,9 @@ def apply_mutant(wt, m):
     lines = open(p).read().splitlines(keepends=True)
     assert lines[m["line"] - 1].rstrip("\n") == m["old"], (m, lines[m["line"] - 1])
     lines[m["line"] - 1] = m["new"] + "\n"
+    if "new2" in m:
+        assert lines[m["line"]].rstrip("\n") == m["old2"]
+        lines[m["line"]] = m["new2"] + "\n"
     open(p, "w").write("".join(lines))
 
 
@@ -286,6 +379,8 @@ def main():
         part = (int(x), int(y))
     if a[0] == "gen":
         gen(root)
+    elif a[0] == "gen2":
+        gen(root, 2)
     elif a[0] == "filter":
         filter_(root, jobs)
     elif a[0] == "screen":
